@@ -22,6 +22,12 @@ LHS_HEAD = {"bitand", "bitor", "bitxor"}
 PRESERVE_HEAD = {"extend_from_bitslice", "truncate", "drain", "clear", "bitand_assign", "bitor_assign", "bitxor_assign",
                  "reverse", "push", "extend", "set", "store", "store_le", "shrink_to_fit", "reserve", "insert", "remove", "pop"}
 FORCE = {"force_align"}
+# bitvec methods taking the receiver by shared reference: no effect on self.bv
+READ_ONLY = {"len", "deref", "index", "capacity", "as_raw_slice", "is_empty", "iter", "clone", "hash", "split_at", "split_first", "split_last", "first", "last",
+             "get", "chunks", "chunks_exact", "rchunks", "rchunks_exact", "windows", "to_bitvec", "count_ones", "count_zeros", "any", "all", "not_any", "not_all",
+             "some", "load", "load_le", "load_be", "as_bitslice", "eq", "ne", "cmp", "partial_cmp", "starts_with", "ends_with", "contains", "leading_zeros",
+             "leading_ones", "trailing_zeros", "trailing_ones", "first_one", "last_one", "first_zero", "last_zero", "iter_ones", "iter_zeros", "by_vals", "by_refs",
+             "as_ref", "borrow", "to_owned", "as_bitptr", "as_bitptr_range", "bit_domain", "domain", "repeat", "fmt"}
 # in-place effects that keep the length
 KEEP_LEN = {"bitand_assign", "bitor_assign", "bitxor_assign", "reverse", "set", "store", "store_le", "shrink_to_fit", "reserve",
             "force_align", "chunks_exact_mut", "rchunks_exact_mut", "chunks_mut", "as_mut_bitslice", "deref_mut", "index_mut"}
@@ -276,7 +282,7 @@ def check(chk, cfg, which):
                 if not args or args[0] != ("bits", P(1)):
                     continue
                 s = short(key)
-                if s in ("len", "deref", "index", "capacity", "as_raw_slice", "is_empty", "iter", "clone", "hash"):
+                if s in READ_ONLY:
                     continue
                 touched = True
                 if which == "I-head":
